@@ -162,6 +162,16 @@ CHECKS = {
             "faults are injected at Python file-operation granularity by patching os/io/builtins (pathlib and tempfile resolve "
             "them at call time); the kernel's own atomicity of rename is assumed",
             "DESIGN.md §3 C16"),
+    "C17": ("exploration",
+            "register model over generated call histories; exhaustive in-call modification points; exhaustive two-writer interleavings with a deterministic scheduler",
+            "Generated histories of writes / changes / normalize / dry runs / external modifications with every base_hash choice are "
+            "checked step by step against a register model with a whole-sandbox snapshot before and after each call; for a call "
+            "holding the current hash the file is modified right before each of its file-operation boundaries (exhaustive); two "
+            "writers with one base_hash are run through all 252 interleavings of their five logical steps for octave_write and "
+            "atomic_write_octave (exhaustive), plus overlapping coroutines in one event loop.",
+            "writers are gated at Python file-operation granularity by the harness's scheduler; base_hash on an absent file is vacuous "
+            "by the documented contract",
+            "DESIGN.md §3 C17"),
 }
 
 NOT_YET = {
